@@ -118,7 +118,11 @@ def mc_naive(n=5):
            'ix \\in {0, 3}, iy \\in {0, 2}}')
     return tla.module("MCNaive", ["StudyTiling"], [("MCSubLens", "{}"), inv, lay,
                                                    "ASSUME \\A t \\in Layouts : RetileOK(t)",
-                                                   "ASSUME \\E t \\in Layouts : ~RetileKeepingStaleOK(t)"])
+                                                   "ASSUME \\E t \\in Layouts : ~RetileKeepingStaleOK(t)",
+                                                   # transports: rebuilding a tiling from its image size is right for top-level
+                                                   # tilings and refuted for sub-image tilings
+                                                   "ASSUME \\A w \\in 1..9, h \\in 1..9 : TransportByRebuildOK(Tiling(w, h))",
+                                                   "ASSUME \\E t \\in Layouts : ~TransportByRebuildOK(t)"])
 
 
 def mc_tables(crit, maxlen, extra, full2d, sub2d, big, huge):
@@ -175,6 +179,7 @@ class Tables(object):
         self.subaxis = {}   # (p2, plen, off, len) -> (g0, n, segs)
         self.pair = {}      # (w, h) -> (p2, lev, gx0, gy0, count)
         self.filerow = {}   # parity -> list: display row r -> file row
+        self.nested = {}    # (W, H, ix, iy, sw, sh) -> (jx, jy, nw, nh): a sub-image of that sub-image
 
 
 T = Tables()
@@ -237,8 +242,32 @@ def observe(st, w, h):
     return rects, cnt, np.asarray(tix), np.asarray(six), np.asarray(tiy), np.asarray(siy), int(st.n_deepest_layer_tiles())
 
 
-def compare_geometry(tag, case, st, w, h, row, segsx, segsy, exp_rects=None):
-    """Compare one real tiling (full or sub) with TLC's expectation. Returns [(sev, key, msg, case)]."""
+TRANSPORTS = ("pickle2", "pickle3", "pickle4", "pickle5", "copy", "deepcopy", "queue")
+
+
+def transport(obj, how):
+    """What can happen to a tiling object between its construction and its use (spec action Transport: same geometry)."""
+    import copy
+    import pickle
+    if how.startswith("pickle"):
+        return pickle.loads(pickle.dumps(obj, protocol=int(how[6:])))
+    if how == "copy":
+        return copy.copy(obj)
+    if how == "deepcopy":
+        return copy.deepcopy(obj)
+    if how == "queue":                      # the pickling path of multiprocessing queues / pipes
+        import multiprocessing as mp
+        q = mp.SimpleQueue()
+        q.put(obj)
+        return q.get()
+    if how == "none":
+        return obj
+    raise ValueError(how)
+
+
+def compare_geometry(tag, case, st, w, h, row, segsx, segsy, exp_rects=None, obs=None):
+    """Compare one real tiling (full or sub) with TLC's expectation. Returns [(sev, key, msg, case)].
+    obs: an observation made elsewhere (in another process) instead of on `st`."""
     import numpy as np
     res = []
     p2, lev, gx0, gy0, count = row
@@ -246,7 +275,9 @@ def compare_geometry(tag, case, st, w, h, row, segsx, segsy, exp_rects=None):
     def bad(sev, key, msg):
         res.append((sev, "%s:%s" % (tag, key), msg, case))
     try:
-        rects, cnt, tix, six, tiy, siy, ndeep = observe(st, w, h)
+        if isinstance(obs, Exception):
+            raise obs
+        rects, cnt, tix, six, tiy, siy, ndeep = obs if obs is not None else observe(st, w, h)
     except Exception as e:  # noqa
         bad("V", "raises", "tiling %s raised %r" % (case, e))
         return res
@@ -355,6 +386,25 @@ def _first_diff(t, s, et, es):
     return "pixel %d -> (%d,%d), table (%d,%d)" % (i, int(t[i]), int(s[i]), int(et[i]), int(es[i]))
 
 
+def _safe_observe(obj, w, h):
+    try:
+        return observe(obj, w, h)
+    except Exception as e:  # noqa
+        return RuntimeError(repr(e))
+
+
+def _child_observer(inq, outq, inherited):
+    """Runs in a forked child: observes tilings it inherited across the fork and tilings sent to it through a queue."""
+    for tag, (w, h), obj in inherited:
+        outq.put((tag, _safe_observe(obj, w, h)))
+    while True:
+        item = inq.get()
+        if item is None:
+            break
+        tag, (w, h), obj = item
+        outq.put((tag, _safe_observe(obj, w, h)))
+
+
 def geometry_chunk(pairs):
     """Pool worker: full-image tilings for a chunk of (w, h)."""
     repo.setup()
@@ -373,6 +423,15 @@ def geometry_chunk(pairs):
             out.append(("V", "study:raises", "StudyTiling(%d, %d) raised %r" % (w, h, e), {"w": w, "h": h}))
             continue
         out.extend(compare_geometry("study", {"w": w, "h": h}, st, w, h, row, ax[2], ay[2]))
+        if (w + 3 * h) % 4 == 0:           # every fourth tiling is also looked at after a transport
+            how = TRANSPORTS[(w + h) % len(TRANSPORTS)]
+            tcase = {"w": w, "h": h, "transport": how}
+            try:
+                st2 = transport(st, how)
+            except Exception as e:  # noqa
+                out.append(("V", "study:raises", "%s of StudyTiling(%d, %d) raised %r" % (how, w, h, e), tcase))
+                continue
+            out.extend(compare_geometry("study", tcase, st2, w, h, row, ax[2], ay[2]))
     return out
 
 
@@ -412,6 +471,38 @@ def sub_chunk(groups):
                 out.append(("V", "subimage:raises", "compute_for_subimage%s on %dx%d raised %r" % ((ix, iy, sw, sh), W, H, e), case))
                 continue
             out.extend(compare_geometry("subimage", case, st, sw, sh, row, ax[2], ay[2]))
+            # the same sub-image tiling after a transport (pickle protocols, copy, deepcopy, queue)
+            how = TRANSPORTS[(i + ix + iy + sw) % len(TRANSPORTS)]
+            tcase = dict(case, transport=how)
+            try:
+                st2 = transport(st, how)
+                out.extend(compare_geometry("subimage", tcase, st2, sw, sh, row, ax[2], ay[2]))
+                if i % 5 == 0:             # ... and after two transports in a row
+                    how2 = TRANSPORTS[(i + sh) % len(TRANSPORTS)]
+                    out.extend(compare_geometry("subimage", dict(case, transport=how + "," + how2), transport(st2, how2), sw, sh, row, ax[2], ay[2]))
+            except Exception as e:  # noqa
+                out.append(("V", "subimage:raises", "%s of the sub-image tiling %s raised %r" % (how, case, e), tcase))
+            # a sub-image of the sub-image: compute_for_subimage on a sub-tiling places it in the stand-alone tiling of the
+            # sub-image's size (which grid a nested sub-image belongs to is not fixed by the property: a difference there
+            # is drift); a transport must not change it
+            nested = T.nested.get((W, H, ix, iy, sw, sh))
+            if nested is not None:
+                jx, jy, nw, nh = nested
+                nrow0 = T.pair[(sw, sh)]
+                nax, nay = T.subaxis[(nrow0[0], sw, jx, nw)], T.subaxis[(nrow0[0], sh, jy, nh)]
+                nrow = (nrow0[0], nrow0[1], nax[0], nay[0], nax[1] * nay[1])
+                ncase = dict(case, nested=[jx, jy, nw, nh])
+                try:
+                    nst = st.compute_for_subimage(jx, jy, nw, nh)
+                    plain = compare_geometry("subimage", ncase, nst, nw, nh, nrow, nax[2], nay[2])
+                    if plain:
+                        out.append(("D", "subimage:nested", "a sub-image of a sub-image is not placed in the stand-alone tiling of the "
+                                    "sub-image's size: %s" % (plain[0][2],), ncase))
+                    else:
+                        for hw in (how, TRANSPORTS[(i + 3) % len(TRANSPORTS)]):
+                            out.extend(compare_geometry("subimage", dict(ncase, transport=hw), transport(nst, hw), nw, nh, nrow, nax[2], nay[2]))
+                except Exception as e:  # noqa
+                    out.append(("V", "subimage:raises", "nested sub-image %s raised %r" % (ncase, e), ncase))
             if i % 7 == 6:
                 out.extend(compare_geometry("subimage", dict(case, history=case["history"] + "; looked at twice"), st, sw, sh, row, ax[2], ay[2]))
                 look_at_parent("between sub-images")
@@ -676,7 +767,11 @@ def reassembly_case(args):
                     img = np.array(source.asarray())          # what the library was handed, in display orientation
                 if kind == "lib":
                     pio = PyramidIO(out, default_format=fmt)
-                    tile_study_image(source, pio)
+                    if seed % 3 == 0:           # a tiling object that was transported before it is used
+                        case["transport"] = TRANSPORTS[seed % len(TRANSPORTS)]
+                        transport(StudyTiling(img.shape[1], img.shape[0]), case["transport"]).tile_image(source, pio)
+                    else:
+                        tile_study_image(source, pio)
                     template = pio.get_path_scheme() + "." + fmt
                     olev = lev
                 elif kind == "sub":
@@ -692,6 +787,9 @@ def reassembly_case(args):
                         res.extend(judge_mosaic("reassembly:lib", dict(case, history="parent image tiled on the object that later derives the sub-image"),
                                                 pm, pu, pp, parent, prow[2], prow[3], mode))
                     st = ptiling.compute_for_subimage(ix, iy, sw, sh)
+                    if seed % 3 != 1:           # two of three sub-image tilings are transported before they tile
+                        case["transport"] = TRANSPORTS[seed % len(TRANSPORTS)]
+                        st = transport(st, case["transport"])
                     st.tile_image(source, pio)
                     n_sub, n_rects = st.count_populated_positions(), len(list(st.generate_populated_positions()))
                     n_tlc = T.subaxis[(p2, W, ix, sw)][1] * T.subaxis[(p2, H, iy, sh)][1]
@@ -954,6 +1052,16 @@ def run(ctx):
                 oy, ly = rng.choice(ys)
                 sub_cases.append((W, H, ox, oy, lx, ly))
     sub_cases = sorted(set(sub_cases))
+    # sub-images of sub-images, where the first sub-image has a critical size (so that TLC's tables cover it as a parent)
+    cset = set(crit)
+    for q in sub_cases:
+        if q[4] in cset and q[5] in cset and q[4] * q[5] > 1:
+            p2n = max(T.own[q[4]], T.own[q[5]])
+            xs, ys = by_parent.get((p2n, q[4])), by_parent.get((p2n, q[5]))
+            if xs and ys:
+                ox, lx = rng.choice(xs)
+                oy, ly = rng.choice(ys)
+                T.nested[q] = (ox, oy, lx, ly)
     sub2d = [sub_cases[i] for i in sorted(rng.sample(range(len(sub_cases)), min(len(sub_cases), 80 if quick else 600)))]
 
     # ---- TLC: the pair rows, full rectangle lists, file-row tables (constant evaluation of the same operators)
@@ -1112,6 +1220,60 @@ def run(ctx):
             ctx.distinct(("io", case["path"], case["mode"], case["format"], case["image_format"], case["holes"]) + tuple(case["dims"]))
             report(res, None)
     ctx.note("reassembly_cases", len(cases))
+
+    # ---- tilings of every kind sent to a worker PROCESS through a multiprocessing queue, or inherited across a fork,
+    #      and observed there (as the parallel paths of the multi-image processors hand their descriptors to workers)
+    from toasty.study import StudyTiling
+    trip = []       # (tag, (w, h), object, key-tag, case, row, segsx, segsy)
+    if only is None:
+        for (w, h) in [(257, 255), (513, 2), (1025, 258), (1, 1), (512, 1024)]:
+            row = T.pair.get((w, h))
+            if row is not None and (row[0], w) in T.axis and (row[0], h) in T.axis:
+                trip.append(("top %dx%d" % (w, h), (w, h), StudyTiling(w, h), "study", {"w": w, "h": h}, row, T.axis[(row[0], w)][2], T.axis[(row[0], h)][2]))
+        step = max(1, len(all_sub_cases) // (24 if quick else 200))
+        for q in all_sub_cases[::step] + sorted(T.nested)[:: max(1, len(T.nested) // (12 if quick else 100))]:
+            W, H, ix, iy, sw, sh = q
+            prow = T.pair[(W, H)]
+            ax, ay = T.subaxis[(prow[0], W, ix, sw)], T.subaxis[(prow[0], H, iy, sh)]
+            st = StudyTiling(W, H).compute_for_subimage(ix, iy, sw, sh)
+            trip.append(("sub %s" % (q,), (sw, sh), st, "subimage", {"W": W, "H": H, "ix": ix, "iy": iy, "sw": sw, "sh": sh},
+                         (prow[0], prow[1], ax[0], ay[0], ax[1] * ay[1]), ax[2], ay[2]))
+            if q in T.nested:
+                jx, jy, nw, nh = T.nested[q]
+                n0 = T.pair[(sw, sh)]
+                nax, nay = T.subaxis[(n0[0], sw, jx, nw)], T.subaxis[(n0[0], sh, jy, nh)]
+                nrow = (n0[0], n0[1], nax[0], nay[0], nax[1] * nay[1])
+                nst = st.compute_for_subimage(jx, jy, nw, nh)
+                ncase = {"W": W, "H": H, "ix": ix, "iy": iy, "sw": sw, "sh": sh, "nested": [jx, jy, nw, nh]}
+                if not compare_geometry("subimage", ncase, nst, nw, nh, nrow, nax[2], nay[2]):     # else: drift, reported above
+                    trip.append(("nested %s %s" % (q, T.nested[q]), (nw, nh), nst, "subimage", ncase, nrow, nax[2], nay[2]))
+    if trip:
+        inq, outq = fork.Queue(), fork.Queue()
+        inherited = [(it[0], it[1], it[2]) for it in trip[::3]]
+        child = fork.Process(target=_child_observer, args=(inq, outq, inherited))
+        child.start()
+        sent = [it for k, it in enumerate(trip) if k % 3 != 0]
+        for it in sent:
+            inq.put((it[0], it[1], it[2]))
+        inq.put(None)
+        expect = {it[0]: it for it in trip}
+        got = {}
+        try:
+            for _ in range(len(trip)):
+                tag, obs = outq.get(timeout=120)
+                got[tag] = obs
+        except Exception as e:  # noqa
+            child.terminate()
+            ctx.machinery("the observer process did not answer: %r" % (e,))
+        child.join(30)
+        for k, it in enumerate(trip):
+            tag, (w, h), _obj, ktag, case, row, sx, sy = it
+            tcase = dict(case, transport="inherited across fork" if k % 3 == 0 else "multiprocessing queue to a worker process")
+            report(compare_geometry(ktag, tcase, None, w, h, row, sx, sy, obs=got[tag]), None)
+            ctx.count()
+            ctx.trace_ok()
+            ctx.distinct(("trip", tag, k % 3 == 0))
+        ctx.note("process_trips", len(trip))
     if nviol[0]:
         ctx.note("failing_cases_per_monitor", dict(perkey))
 
